@@ -459,9 +459,23 @@ func TestTaint(t *testing.T) {
 	if vk.Tier() == "thorough" {
 		conns, reqs = 32, 600
 	}
+	// on record while the stress runs: a server that dies in the middle of it is attributed to this case
+	vk.Journal(property, "taint", TaintCase{Note: "concurrent stress (connections, then in-process dispatch)"})
+	defer vk.Unjournal()
 	app := fiber.New(fiber.Config{Views: vk.Views{}, PassLocalsToViews: true})
-	app.Post("/t/:tok/:opt?", func(c fiber.Ctx) error {
+	var bad, total int64
+	var first atomic.Value
+	app.Post("/t/:tok/:opt?", func(c fiber.Ctx) (err error) {
 		tok := c.Params("tok")
+		defer func() {
+			// a context that is pulled away under its handler (served to another request at the same time) shows up
+			// as a panic in whatever the handler touches next: that is a finding, not a reason to die
+			if r := recover(); r != nil {
+				atomic.AddInt64(&bad, 1)
+				first.CompareAndSwap(nil, fmt.Sprintf("the handler of request %s panicked in the middle of its accessor calls: %v", tok, r))
+				err = fiber.ErrInternalServerError
+			}
+		}()
 		c.Locals("lk", "L"+tok)
 		_ = c.ViewBind(fiber.Map{"vb": "V" + tok})
 		obs := vk.Observe(c, "lk")
@@ -477,8 +491,6 @@ func TestTaint(t *testing.T) {
 	ln := fasthttputil.NewInmemoryListener()
 	go func() { _ = app.Listener(ln, fiber.ListenConfig{DisableStartupMessage: true}) }()
 	defer func() { _ = app.Shutdown() }()
-	var bad, total int64
-	var first atomic.Value
 	var wg sync.WaitGroup
 	seed := vk.Seed()
 	for g := 0; g < conns; g++ {
@@ -507,6 +519,19 @@ func TestTaint(t *testing.T) {
 					flash = "; fiber_flash=" + string(append([]byte{0x91}, validFlash("fk", "F"+tok, 0x21, false)...))
 				} else if h%7 == 0 {
 					flash = "; fiber_flash=\x92\x80\x80"
+				}
+				if h == 11 || h == 23 {
+					// now and then a method the server does not implement (a scanner's PROPFIND, a typo): answered 501
+					// without a handler, on the same pooled contexts
+					if _, err := io.WriteString(conn, "BREW /t/"+tok+" HTTP/1.1\r\nHost: h\r\n\r\n"); err != nil {
+						return
+					}
+					r501, err := http.ReadResponse(br, nil)
+					if err != nil {
+						return
+					}
+					_, _ = io.Copy(io.Discard, r501.Body)
+					r501.Body.Close()
 				}
 				body := "a=B" + tok
 				req := fmt.Sprintf("POST /t/%s%s?a=Q%s%s HTTP/1.1\r\nHost: h\r\nX-A: H%s\r\nContent-Type: application/x-www-form-urlencoded\r\nCookie: a=C%s%s\r\nContent-Length: %d\r\n\r\n%s", tok, opt, tok, redir, tok, tok, flash, len(body), body)
